@@ -115,6 +115,10 @@ func buildC03(e *engine, p *rt.Package) {
 					res.Failed, res.Message = true, fmt.Sprintf("infrastructure: artefacts of %s missing: %v", p.ID, derr)
 					return func(t *rapid.T) {}
 				}
+				if why := headerHazard(e, info, res); why != "" {
+					res.Skipped = why
+					return func(t *rapid.T) {}
+				}
 				if srv == nil {
 					srv = newServer(p, false)
 				}
